@@ -395,26 +395,9 @@ impl Value {
                 Value::String(s2, ..) => s1 != s2,
                 _ => true,
             },
-            Value::Dimension(SassNumber {
-                num: n,
-                unit,
-                as_slash: _,
-            }) if !n.is_nan() => match other {
-                Value::Dimension(SassNumber {
-                    num: n2,
-                    unit: unit2,
-                    as_slash: _,
-                }) if !n2.is_nan() => {
-                    if !unit.comparable(unit2) {
-                        true
-                    } else if unit == unit2 {
-                        n != n2
-                    } else if unit == &Unit::None || unit2 == &Unit::None {
-                        true
-                    } else {
-                        n != &n2.convert(unit2, unit)
-                    }
-                }
+            // the same relation as `==` (see `PartialEq for SassNumber`)
+            Value::Dimension(n1) if !n1.num.is_nan() => match other {
+                Value::Dimension(n2) if !n2.num.is_nan() => n1 != n2,
                 _ => true,
             },
             Value::List(list1, sep1, brackets1) => match other {
